@@ -1139,14 +1139,14 @@ Proof.
       replace (N.min e (base b + retained b)) with e by lia. reflexivity.
 Qed.
 
-Lemma step_ack b s e b' :
-  Inv b -> s < e -> on_data_acked b s e = Some b' ->
+Lemma step_ack_sent b s e b' :
+  Inv b -> s < e -> on_data_acked_sent b s e = Some b' ->
   Inv b' /\ written b' = written b /\ sent b' = sent b /\ nopend (st b) (st b') /\ (Tight b -> Tight b') /\
   e <= size (st b) /\
   (forall i, i < size (st b) -> colr (st b') i = if (s <=? i) && (i <? e) then Recved else colr (st b) i) /\
   (forall i, s <= i < e -> colr (st b) i <> Pending).
 Proof.
-  intros HI Hse E. pose proof HI as [Hwf Hsz Hsm]. unfold on_data_acked in E.
+  intros HI Hse E. pose proof HI as [Hwf Hsz Hsm]. unfold on_data_acked_sent in E.
   destruct (N.leb_spec e s); [lia|].
   destruct (ack_rcvd (st b) s e) as [m1|] eqn:Ea; [|discriminate].
   destruct (ack_rcvd_spec _ _ _ _ Hwf Hse Ea) as (A1 & A2 & A3 & A4 & A5).
@@ -1184,14 +1184,14 @@ Proof.
     + intros Hb. rewrite H3. apply H6. lia.
 Qed.
 
-Lemma step_loss b s e b' :
-  Inv b -> s < e -> may_loss_data b s e = Some b' ->
+Lemma step_loss_sent b s e b' :
+  Inv b -> s < e -> may_loss_data_sent b s e = Some b' ->
   Inv b' /\ written b' = written b /\ sent b' = sent b /\ nopend (st b) (st b') /\ (Tight b -> Tight b') /\
   e <= size (st b) /\
   (forall i, i < size (st b) -> colr (st b') i = if (s <=? i) && (i <? e) then lossf (colr (st b) i) else colr (st b) i) /\
   (forall i, s <= i < e -> colr (st b) i <> Pending).
 Proof.
-  intros HI Hse E. pose proof HI as [Hwf Hsz Hsm]. unfold may_loss_data in E.
+  intros HI Hse E. pose proof HI as [Hwf Hsz Hsm]. unfold may_loss_data_sent in E.
   destruct (N.leb_spec e s); [lia|].
   destruct (may_loss (st b) s e) as [m1|] eqn:Ea; [|discriminate]. injection E as <-.
   destruct (may_loss_spec _ _ _ _ Hwf Hse Ea) as (A1 & A2 & A3 & A4 & A5).
@@ -1282,6 +1282,59 @@ Qed.
 Lemma nopend_refl m : nopend m m.
 Proof. intros i Hi Hp. auto. Qed.
 
+(* SendBuf::on_data_acked / may_loss_data cut the reported range down to its sent part
+   [s, min e sent) first (repair of finding F70): no side condition on the range is left *)
+Lemma ack_sent_shape b s e b' : on_data_acked_sent b s e = Some b' -> max_data b' = max_data b.
+Proof.
+  unfold on_data_acked_sent. destruct (e <=? s); [intro E; injection E as <-; reflexivity|].
+  destruct (ack_rcvd _ _ _); [|discriminate]. destruct (shift _). destruct (base b <? n); intro E; injection E as <-; reflexivity.
+Qed.
+
+Lemma loss_sent_shape b s e b' : may_loss_data_sent b s e = Some b' ->
+  max_data b' = max_data b /\ base b' = base b /\ retained b' = retained b.
+Proof.
+  unfold may_loss_data_sent. destruct (e <=? s); [intro E; injection E as <-; auto|].
+  destruct (may_loss _ _ _); [|discriminate]. intro E; injection E as <-; auto.
+Qed.
+
+Lemma inv_same_size b b' : Inv b -> Inv b' -> written b' = written b -> max_data b' = max_data b -> size (st b') = size (st b).
+Proof. intros [_ Z2 _] [_ Z1 _] Hw Hm. rewrite Z1, Z2, Hw, Hm. reflexivity. Qed.
+
+Lemma step_ack b s e b' :
+  Inv b -> on_data_acked b s e = Some b' ->
+  Inv b' /\ written b' = written b /\ sent b' = sent b /\ nopend (st b) (st b') /\ (Tight b -> Tight b') /\
+  max_data b' = max_data b /\ size (st b') = size (st b) /\
+  (forall i, i < size (st b) -> colr (st b') i = if (s <=? i) && (i <? N.min e (sent b)) then Recved else colr (st b) i).
+Proof.
+  intros HI E. unfold on_data_acked in E. pose proof (ack_sent_shape _ _ _ _ E) as Hm.
+  destruct (N.leb_spec (N.min e (sent b)) s) as [Hes|Hes].
+  - unfold on_data_acked_sent in E. rewrite (proj2 (N.leb_le _ _) Hes) in E. injection E as <-.
+    split; [exact HI|]. split; [reflexivity|]. split; [reflexivity|]. split; [apply nopend_refl|]. split; [auto|].
+    split; [reflexivity|]. split; [reflexivity|].
+    intros i _. destruct (N.leb_spec s i); destruct (N.ltb_spec i (N.min e (sent b))); cbn [andb]; try reflexivity. lia.
+  - destruct (step_ack_sent _ _ _ _ HI Hes E) as (A1 & A2 & A3 & A4 & A5 & _ & A7 & _).
+    split; [exact A1|]. split; [exact A2|]. split; [exact A3|]. split; [exact A4|]. split; [exact A5|].
+    split; [exact Hm|]. split; [apply inv_same_size; assumption|exact A7].
+Qed.
+
+Lemma step_loss b s e b' :
+  Inv b -> may_loss_data b s e = Some b' ->
+  Inv b' /\ written b' = written b /\ sent b' = sent b /\ nopend (st b) (st b') /\ (Tight b -> Tight b') /\
+  max_data b' = max_data b /\ size (st b') = size (st b) /\
+  (forall i, i < size (st b) -> colr (st b') i = if (s <=? i) && (i <? N.min e (sent b)) then lossf (colr (st b) i) else colr (st b) i) /\
+  base b' = base b /\ retained b' = retained b.
+Proof.
+  intros HI E. unfold may_loss_data in E. destruct (loss_sent_shape _ _ _ _ E) as (Hm & Hb & Hr).
+  destruct (N.leb_spec (N.min e (sent b)) s) as [Hes|Hes].
+  - unfold may_loss_data_sent in E. rewrite (proj2 (N.leb_le _ _) Hes) in E. injection E as <-.
+    split; [exact HI|]. split; [reflexivity|]. split; [reflexivity|]. split; [apply nopend_refl|]. split; [auto|].
+    split; [reflexivity|]. split; [reflexivity|]. split; [|split; reflexivity].
+    intros i _. destruct (N.leb_spec s i); destruct (N.ltb_spec i (N.min e (sent b))); cbn [andb]; try reflexivity. lia.
+  - destruct (step_loss_sent _ _ _ _ HI Hes E) as (A1 & A2 & A3 & A4 & A5 & _ & A7 & _).
+    split; [exact A1|]. split; [exact A2|]. split; [exact A3|]. split; [exact A4|]. split; [exact A5|].
+    split; [exact Hm|]. split; [apply inv_same_size; assumption|]. split; [exact A7|]. split; assumption.
+Qed.
+
 Lemma step_all strict c b o b' out :
   Inv b -> class_okb strict b o = true -> sb_exec c b o = (Some b', out) ->
   Inv b' /\ written b' = written b + dwritten o /\ sent b' = sent_after b o out /\
@@ -1313,17 +1366,11 @@ Proof.
     + injection E as <- <-. split; [exact HI|]. split; [lia|]. split; [reflexivity|]. split; [intros _; apply nopend_refl|auto].
   - (* ack *)
     destruct (on_data_acked b s e) as [b1|] eqn:Ea; [|discriminate]. injection E as <- <-.
-    destruct (N.leb_spec e s) as [Hes|Hes].
-    { unfold on_data_acked in Ea. destruct (N.leb_spec e s); [|lia]. injection Ea as <-.
-      split; [exact HI|]. split; [lia|]. split; [reflexivity|]. split; [intros _; apply nopend_refl|auto]. }
-    destruct (step_ack _ _ _ _ HI Hes Ea) as (A1 & A2 & A3 & A4 & A5 & _).
+    destruct (step_ack _ _ _ _ HI Ea) as (A1 & A2 & A3 & A4 & A5 & _).
     split; [exact A1|]. split; [lia|]. split; [exact A3|]. split; [intros _; exact A4|intros _; exact A5].
   - (* loss *)
     destruct (may_loss_data b s e) as [b1|] eqn:Ea; [|discriminate]. injection E as <- <-.
-    destruct (N.leb_spec e s) as [Hes|Hes].
-    { unfold may_loss_data in Ea. destruct (N.leb_spec e s); [|lia]. injection Ea as <-.
-      split; [exact HI|]. split; [lia|]. split; [reflexivity|]. split; [intros _; apply nopend_refl|auto]. }
-    destruct (step_loss _ _ _ _ HI Hes Ea) as (A1 & A2 & A3 & A4 & A5 & _).
+    destruct (step_loss _ _ _ _ HI Ea) as (A1 & A2 & A3 & A4 & A5 & _).
     split; [exact A1|]. split; [lia|]. split; [exact A3|]. split; [intros _; exact A4|intros _; exact A5].
   - (* resend_flighting *)
     injection E as <- <-. destruct (step_resend b HI) as (A1 & A2 & A3 & A4 & A5 & _).
@@ -1698,7 +1745,8 @@ Qed.
 Lemma p_c09_empty_range_noop : forall b s e, e <= s ->
   on_data_acked b s e = Some b /\ may_loss_data b s e = Some b.
 Proof.
-  intros b s e H. unfold on_data_acked, may_loss_data. destruct (N.leb_spec e s); [split; reflexivity|lia].
+  intros b s e H. unfold on_data_acked, may_loss_data, on_data_acked_sent, may_loss_data_sent.
+  destruct (N.leb_spec (N.min e (sent b)) s); [split; reflexivity|lia].
 Qed.
 
 Lemma run_ok_snoc strict c ops : forall b0 b outs o b' out,
@@ -1895,4 +1943,110 @@ Proof.
       * eapply (proj1 (loss_total (size m) e rest')); eauto.
       * eapply (proj2 (loss_total (size m) e rest')); eauto.
     + apply ErrCase. intros o' k' r' Hq. injection Hq as <- <- <-. exact Hne.
+Qed.
+
+(* ------------------------------------------------------------------ *)
+(* finding F70 (repaired): SendBuf::on_data_acked / may_loss_data act on the sent part of the reported
+   range only.  In every state that satisfies the invariant - so after every operation list - NO report,
+   whatever its range, can fail one of BufMap's assertions, and the never-sent bytes keep their colour *)
+
+Lemma report_total b s e : Inv b -> on_data_acked b s e <> None /\ may_loss_data b s e <> None.
+Proof.
+  intros [Hwf Hsz Hsm]. destruct (sent_of_spec _ Hwf) as (S1 & S2 & S3).
+  unfold on_data_acked, may_loss_data, on_data_acked_sent, may_loss_data_sent, sent.
+  destruct (N.leb_spec (N.min e (sent_of (st b))) s) as [H|H]; [split; discriminate|].
+  assert (Hnp : forall i, s <= i < N.min e (sent_of (st b)) -> colour_at (st b) i <> Some Pending).
+  { intros i Hi Hc. apply colour_at_some in Hc. destruct Hc as [_ Hc]. apply (S3 i); [lia|exact Hc]. }
+  split.
+  - pose proof (p_c09_ack_total (st b) s _ Hwf H ltac:(lia) Hnp) as Hn.
+    destruct (ack_rcvd (st b) s (N.min e (sent_of (st b)))); [|congruence].
+    destruct (shift b0). destruct (base b <? n); discriminate.
+  - pose proof (p_c09_loss_total (st b) s _ Hwf H ltac:(lia) Hnp) as Hn.
+    destruct (may_loss (st b) s (N.min e (sent_of (st b)))); [discriminate|congruence].
+Qed.
+
+Lemma p_c09_report_total : forall c cap ops b outs s e, reach false c cap ops b outs ->
+  on_data_acked b s e <> None /\ may_loss_data b s e <> None.
+Proof.
+  intros c cap ops b outs s e H. destruct (reach_inv _ _ _ _ _ _ H) as (HI & _). apply report_total; exact HI.
+Qed.
+
+Lemma p_c09_report_ack : forall c cap ops b outs s e b', reach false c cap ops b outs ->
+  on_data_acked b s e = Some b' ->
+  written b' = written b /\ sent b' = sent b /\ max_data b' = max_data b /\ size (st b') = size (st b) /\
+  (forall i, colour_at (st b') i = if in_range s (N.min e (sent b)) i then Some Recved else colour_at (st b) i).
+Proof.
+  intros c cap ops b outs s e b' H E. destruct (reach_inv _ _ _ _ _ _ H) as (HI & _).
+  destruct (step_ack _ _ _ _ HI E) as (A1 & A2 & A3 & _ & _ & A6 & A7 & A8).
+  split; [exact A2|]. split; [exact A3|]. split; [exact A6|]. split; [exact A7|].
+  pose proof HI as [Hwf _ _]. destruct (sent_of_spec _ Hwf) as (S1 & _ & _).
+  intro i. rewrite !colour_at_colr, A7. unfold in_range. destruct (N.ltb_spec i (size (st b))) as [Hi|Hi].
+  - rewrite A8 by exact Hi. destruct ((s <=? i) && (i <? N.min e (sent b))); reflexivity.
+  - destruct (N.leb_spec s i); destruct (N.ltb_spec i (N.min e (sent b))); cbn [andb]; try reflexivity.
+    unfold sent in *. lia.
+Qed.
+
+Lemma p_c09_report_loss : forall c cap ops b outs s e b', reach false c cap ops b outs ->
+  may_loss_data b s e = Some b' ->
+  written b' = written b /\ sent b' = sent b /\ max_data b' = max_data b /\ size (st b') = size (st b) /\
+  base b' = base b /\ retained b' = retained b /\
+  (forall i, colour_at (st b') i = if in_range s (N.min e (sent b)) i then option_map lossf (colour_at (st b) i) else colour_at (st b) i).
+Proof.
+  intros c cap ops b outs s e b' H E. destruct (reach_inv _ _ _ _ _ _ H) as (HI & _).
+  destruct (step_loss _ _ _ _ HI E) as (A1 & A2 & A3 & _ & _ & A6 & A7 & A8 & A9 & A10).
+  split; [exact A2|]. split; [exact A3|]. split; [exact A6|]. split; [exact A7|]. split; [exact A9|]. split; [exact A10|].
+  intro i. rewrite !colour_at_colr, A7. unfold in_range. destruct (N.ltb_spec i (size (st b))) as [Hi|Hi].
+  - rewrite A8 by exact Hi. destruct ((s <=? i) && (i <? N.min e (sent b))); reflexivity.
+  - destruct ((s <=? i) && (i <? N.min e (sent b))); reflexivity.
+Qed.
+
+(* a report that lies completely in the never-sent part leaves the buffer as it is *)
+Lemma p_c09_stale_report_noop : forall b s e, sent b <= s ->
+  on_data_acked b s e = Some b /\ may_loss_data b s e = Some b.
+Proof.
+  intros b s e H. unfold on_data_acked, may_loss_data, on_data_acked_sent, may_loss_data_sent.
+  destruct (N.leb_spec (N.min e (sent b)) s); [split; reflexivity|lia].
+Qed.
+
+(* 0-RTT rejection (forget_sent_state at base 0, then the window of the real handshake): nothing counts
+   as sent, so every report about a frame of a rejected 0-RTT packet is ignored - until data is sent again *)
+Lemma p_c09_forget_then_reports : forall c cap ops b outs mx b1,
+  reach true c cap ops b outs -> base b = 0 -> extend (forget_sent_state b) mx = Some b1 ->
+  reach true c cap (ops ++ [SbForget; SbExtend mx]) b1 (outs ++ [OUnit; OUnit]) /\
+  sent b1 = 0 /\ written b1 = written b /\ base b1 = 0 /\
+  (forall s e, on_data_acked b1 s e = Some b1 /\ may_loss_data b1 s e = Some b1).
+Proof.
+  intros c cap ops b outs mx b1 H Hb E.
+  destruct (p_c09_forget_safe_at_base0 _ _ _ _ _ H Hb) as (R1 & _).
+  assert (R2 : reach true c cap ((ops ++ [SbForget]) ++ [SbExtend mx]) b1 ((outs ++ [OUnit]) ++ [OUnit])).
+  { unfold reach in *. eapply run_ok_snoc; [exact R1|reflexivity|]. cbn [sb_exec]. rewrite E. reflexivity. }
+  rewrite <- !app_assoc in R2. cbn [app] in R2.
+  assert (Hs : sent b1 = 0).
+  { unfold extend in E. destruct (mx <? max_data (forget_sent_state b)); [discriminate|].
+    remember (N.min (written (forget_sent_state b)) mx) as pos.
+    destruct (extend_to (st (forget_sent_state b)) pos) as [m'|] eqn:Ee; [|discriminate]. injection E as <-.
+    unfold sent. cbn [st]. unfold extend_to in Ee. cbn [forget_sent_state st empty_map size runs last_colour] in Ee.
+    destruct ((two62 <=? pos) || (pos <? 0)); [discriminate|].
+    destruct (0 <? pos); injection Ee as <-; reflexivity. }
+  assert (Hw : written b1 = written b /\ base b1 = 0).
+  { unfold extend in E. destruct (mx <? max_data (forget_sent_state b)); [discriminate|].
+    destruct (extend_to _ _); [|discriminate]. injection E as <-. unfold written. cbn [base retained forget_sent_state]. auto. }
+  split; [exact R2|]. split; [exact Hs|]. split; [apply Hw|]. split; [apply Hw|].
+  intros s e. apply p_c09_stale_report_noop. lia.
+Qed.
+
+(* regression for F70: 10 bytes, 6 sent in 0-RTT, rejection (forget + new window 8); the loss and the
+   acknowledgement of the 0-RTT frame 0..6 are ignored; 3 bytes are sent again; the loss report of the
+   0-RTT frame now marks exactly these 3 bytes Lost (and not the never-sent rest), an acknowledgement of the
+   0-RTT frame marks exactly these 3 bytes Recved; the rest is still offered as fresh data *)
+Lemma p_c09_f70_regression :
+  exists b outs, sb_execs content (Some (with_capacity 10))
+      [SbWrite 10; SbPick 6 6 100; SbForget; SbExtend 8; SbLoss 0 6; SbAck 0 6; SbPick 3 3 100; SbLoss 0 6] = (Some b, outs) /\
+    runs (st b) = [(0, Lost); (3, Pending)] /\ sent b = 3 /\ base b = 0 /\ retained b = 10 /\
+    (exists b', on_data_acked b 0 6 = Some b' /\ runs (st b') = [(3, Pending)] /\ base b' = 3 /\ retained b' = 7 /\
+       exists b'' d, pick_up content b' (fun _ => Some 10) 10 = UpOk b'' 3 8 true d /\ d = slice content 3 5).
+Proof.
+  vm_compute. eexists _, _. split; [reflexivity|]. split; [reflexivity|]. split; [reflexivity|]. split; [reflexivity|].
+  split; [reflexivity|]. eexists. split; [reflexivity|]. split; [reflexivity|]. split; [reflexivity|]. split; [reflexivity|].
+  eexists _, _. split; reflexivity.
 Qed.
